@@ -36,7 +36,114 @@ def enc_op(op):
     return "S %s %s %s %s" % (enc_str(op[1]), enc_opt(op[2]), op[3] or "~", op[4])
 
 
+def enc_reaction(i, r):
+    who, tag, device, policy = r
+    return "%d %s %s %s %s" % (i, who, enc_str(tag), enc_opt(device), policy or "~")
+
+
 def run_impl(case, outcome):
+    if case.get("op") == "rhist":
+        return run_reentrant(case, outcome)
+    return run_plain(case, outcome)
+
+
+def run_reentrant(case, outcome):
+    """endpoints that send from inside their handler: the next pending reaction of an endpoint is sent (with the endpoint as
+    sender) each time it is handed a message; the log is depth-first, every delivery tagged with the message it delivers
+    (0 = the outer message of the operation, k = reaction number k)"""
+    from indi.device import Driver
+    from indi.device.proxy import Proxy
+    from indi.routing import Client, Router
+
+    log = []
+    current = [0]
+    pending = [[i + 1] + list(r) for i, r in enumerate(case["reactions"])]
+    router = Router()
+
+    def react(who, endpoint):
+        for k, r in enumerate(pending):
+            if r[1] == who:
+                del pending[k]
+                msg = make_message(r[2], r[3], r[4])
+                outer = current[0]
+                current[0] = r[0]
+                try:
+                    router.process_message(msg, endpoint)
+                finally:
+                    current[0] = outer
+                return
+
+    class RecDrv(Driver):
+        def __init__(self, ident, name):
+            self.ident = ident
+            super().__init__(name=name)
+
+        def message_from_client(self, msg):
+            log.append("%d:d%d" % (current[0], self.ident))
+            react("d%d" % self.ident, self)
+
+    class RecProxy(Proxy):
+        def __init__(self, ident):
+            self.ident = ident
+            super().__init__(name="proxy%d" % ident)
+
+        def message_from_client(self, msg):
+            log.append("%d:d%d" % (current[0], self.ident))
+            react("d%d" % self.ident, self)
+
+    class RecCli(Client):
+        def __init__(self, ident):
+            self.ident = ident
+
+        def message_from_device(self, msg):
+            log.append("%d:c%d" % (current[0], self.ident))
+            react("c%d" % self.ident, self)
+
+    devs, clis = {}, {}
+
+    def dev(i, name="?"):
+        if i not in devs:
+            devs[i] = RecProxy(i) if name is None else RecDrv(i, name)
+        return devs[i]
+
+    def cli(i):
+        if i not in clis:
+            clis[i] = RecCli(i)
+        return clis[i]
+
+    traces, enc_ops = [], []
+    for op in case["ops"]:
+        del log[:]
+        enc_ops.append(enc_op(op))
+        try:
+            if op[0] == "D":
+                router.register_device(dev(op[1], op[2]))
+            elif op[0] == "C":
+                router.register_client(cli(op[1]))
+            elif op[0] == "U":
+                router.unregister_client(cli(op[1]))
+            else:
+                _, tag, device, policy, sender = op
+                sd = None if sender == "n" else (cli(int(sender[1:])) if sender[0] == "c" else dev(int(sender[1:])))
+                msg = make_message(tag, device, policy)
+                enc_ops[-1] = enc_op(["S", tag, getattr(msg, "device"), policy, sender])
+                current[0] = 0
+                router.process_message(msg, sd)
+                outcome.count("send:" + tag)
+                outcome.count("nested-deliveries:%d" % min(sum(1 for x in log if not x.startswith("0:")), 4))
+        except Exception as e:  # noqa
+            log.append("raised:" + type(e).__name__)
+            outcome.count("raised:" + type(e).__name__)
+        traces.append(" ".join(log))
+    rs = [enc_reaction(i + 1, r) for i, r in enumerate(case["reactions"])]
+    line = " ".join([str(len(case["ops"]))] + enc_ops + [str(len(rs))] + rs)
+    outcome.nontrivial.add(line)
+    outcome.count("reactions-fired", len(case["reactions"]) - len(pending))
+    return [Query("router rhist " + line, " | ".join(traces), "corr"),
+            Query("spec rrouter " + line, " | ".join(traces), "oracle", "re-entrant delivery: a message sent from inside a handler is not routed by its own kind / the policies")]
+
+
+def run_plain(case, outcome):
     from indi.device import Driver
     from indi.device.proxy import Proxy
     from indi.routing import Client, Router
@@ -217,3 +324,34 @@ def gen_random(rng, n, tags):
                 senders = ["n"] + ["c%d" % (10 + i) for i in range(nc)] + ["d%d" % d for d in devs]
                 ops.append(["S", tag, name, rng.choice(POLICIES) if tag == "enableBLOB" else None, rng.choice(senders)])
         yield {"op": "hist", "ops": ops}
+
+
+def gen_reentrant(rng, tier):
+    """endpoints that answer from inside the fan-out (what real drivers and snooping clients do): outer and nested messages of
+    differing BLOB-ness and direction under every policy assignment; reactions are sends other than enableBLOB"""
+    n = 600 if tier == "thorough" else 120
+    dtags = ["setBLOBVector", "setTextVector", "defBLOBVector", "setNumberVector", "delProperty", "message", "getProperties"]
+    ctags = ["newTextVector", "newBLOBVector", "getProperties", "newSwitchVector"]
+    for k in range(n):
+        nd, nc = rng.randint(1, 3), rng.randint(1, 4)
+        names = ["A", "B", None][:nd]
+        clis = [10 + i for i in range(nc)]
+        ops = [["D", i, names[i]] for i in range(nd)] + [["C", c] for c in clis]
+        for c in clis:
+            for name in ("A", "B", None):
+                if rng.random() < 0.6:
+                    ops.append(["S", "enableBLOB", name, rng.choice(POLICIES), "c%d" % c])
+        reactions = []
+        for _ in range(rng.randint(1, 8)):
+            if rng.random() < 0.55:
+                reactions.append(["d%d" % rng.randrange(nd), rng.choice(dtags), rng.choice(["A", "B", "A", None]), None])
+            else:
+                reactions.append(["c%d" % rng.choice(clis), rng.choice(ctags), rng.choice(["A", "B", "A", None]), None])
+        for _ in range(rng.randint(2, 10)):
+            if rng.random() < 0.5:
+                ops.append(["S", rng.choice(ctags), rng.choice(["A", "B", None]), None, rng.choice(["n"] + ["c%d" % c for c in clis])])
+            else:
+                ops.append(["S", rng.choice(dtags), rng.choice(["A", "B", None]), None, rng.choice(["n"] + ["d%d" % i for i in range(nd)])])
+            if rng.random() < 0.15:
+                ops.append(["S", "enableBLOB", rng.choice(["A", "B"]), rng.choice(POLICIES), "c%d" % rng.choice(clis)])
+        yield {"op": "rhist", "ops": ops, "reactions": reactions}
